@@ -13,7 +13,7 @@ Theorem hand_modelled_sources_unchanged_C13 : PinsC13.pins = [
   ("rust/src/python/types/duration.rs::new"%string, "97c4881272ac84a9ebe3"%string);
   ("src/pendulum/parsing/iso8601.py::_parse_iso8601_duration"%string, "44a4170cd6a75f5428ab"%string);
   ("src/pendulum/parsing/iso8601.py::ISO8601_DURATION"%string, "d45c864239d4ea9dfdfe"%string);
-  ("src/pendulum/parsing/__init__.py::_parse_iso8601_interval"%string, "764b80a56e5a831841a5"%string);
-  ("src/pendulum/parser.py::_parse"%string, "d40523039d688e682e47"%string)].
+  ("src/pendulum/parsing/__init__.py::_parse_iso8601_interval"%string, "6b9d50718a054417c57b"%string);
+  ("src/pendulum/parser.py::_parse"%string, "73897f7e0482fd280005"%string)].
 Proof. exact eq_refl. Qed.
 Print Assumptions hand_modelled_sources_unchanged_C13.
